@@ -1,6 +1,7 @@
 package props
 
 import (
+	"fmt"
 	"go/ast"
 	"go/types"
 	"sort"
@@ -121,6 +122,9 @@ func init() {
 		exprSwitchScan(c)
 	}
 	thoroughExtra["C17"] = func(c *eng.Ctx) { exprSwitchScan(c) }
+	thoroughExtra["C01"] = func(c *eng.Ctx) { deferredErrScan(c, []string{"kv.", "kv/"}, 1) }
+	thoroughExtra["C05"] = func(c *eng.Ctx) { deferredErrScan(c, []string{"pkg/queue.", "pkg/queue/"}, 0) }
+	thoroughExtra["C09"] = func(c *eng.Ctx) { deferredErrScan(c, []string{"index.", "index/"}, 0) }
 }
 
 func exprSwitchScan(c *eng.Ctx) {
@@ -187,5 +191,35 @@ func exprSwitchScan(c *eng.Ctx) {
 		if n < 4 {
 			c.Undecided("expected >= 4 type switches over stmt.Expr/TagFilter, found %d", n)
 		}
+	})
+}
+
+// deferredErrScan (thorough): in the given packages every error assigned inside a deferred function literal to a variable of
+// the enclosing function targets a NAMED RESULT; an assignment to an ordinary local is dead (the result was already evaluated)
+// and silently drops the error of the deferred cleanup (close / sync / release).
+func deferredErrScan(c *eng.Ctx, prefixes []string, min int) {
+	c.Rule("DISCOVERY", "deferred error assignments reach a named result{"+strings.Join(prefixes, ",")+"}", func() {
+		p := c.P
+		n := 0
+		for _, fn := range p.AllFuncs {
+			k := p.FuncKey(fn)
+			in := false
+			for _, pre := range prefixes {
+				if strings.HasPrefix(k, pre) {
+					in = true
+				}
+			}
+			if !in {
+				continue
+			}
+			for i, d := range deferredErrStores(fn) {
+				n++
+				c.Check(d.Named, fmt.Sprintf("%s[%d]", k, i), d.Store, fn, "an error assigned inside a deferred function is assigned to a named result of "+k, "assigned to the ordinary local `"+d.Var+"` (dead store: the error of the deferred cleanup is dropped)")
+			}
+		}
+		if n < min {
+			c.Undecided("expected >= %d deferred error assignments, found %d", min, n)
+		}
+		c.Check(true, "scanned", nil, nil, fmt.Sprintf("%d deferred error assignments scanned", n), "")
 	})
 }
